@@ -353,7 +353,8 @@ Fixpoint deriv_complex_loop (ns : list nat) (t : nat) (didx0 : nat) (deps : list
     else if negb (applies_to_trial fb f (n / sc + 1)) then deriv_complex_loop r t didx0 deps f sc w
     else
       let delta := (win_start_delta w * zn sc)%Z in
-      ands <~ cmapM (fun l => deriv_vars l n (zn t + delta)%Z (win_stride w)) deps ;;
+      (* /repo 07bcac2: the offset is t * stride + delta (delta is not scaled by the stride) *)
+      ands <~ cmapM (fun l => deriv_vars l n (zn t * zn (win_stride w) + delta)%Z 1) deps ;;
       let or_clause := FOr (flat_map (fun o => match o with Some vs => [FAnd (map FVar vs)] | None => [] end) ands) in
       rest <~ deriv_complex_loop r (t + sc) didx0 deps f sc w ;;
       COk (FIff (fv (didx0 + t * nlevels fb f + 1)) or_clause :: rest)
